@@ -30,6 +30,7 @@ structure CaseAcc where
   impl    : Array String := #[]
   bad     : Option String := none
   co      : Option Co.Cfg := none
+  coVec   : Option Nat := none      -- `Vec::into_co_stream` source over that many items
   nest    : Bool := false
   nestHdr : List String := []
 
@@ -72,7 +73,10 @@ def finishCo (a : CaseAcc) (cfg : Co.Cfg) : IO Unit := do
   if parsed.any (fun p => p == some none) then
     IO.println s!"R {a.id} eq=0 parse=0"
   else
-    let evs := parsed.filterMap (fun p => p.join)
+    let evs0 := parsed.filterMap (fun p => p.join)
+    let evs := match a.coVec with
+      | some j => Co.withHiddenSource cfg j evs0
+      | none => evs0
     IO.println s!"R {a.id} {Co.verdict cfg evs}"
 
 /-- one level of nesting: the flattened trace of the real code (leaves of the inner combinators and
@@ -154,9 +158,13 @@ partial def loop (modeArg : String) (h : IO.FS.Stream) (a : CaseAcc) : IO Unit :
   if line.isEmpty then return ()
   match words line with
   | "CASE" :: id :: "nest" :: rest => loop modeArg h { id := id, nest := true, nestHdr := rest }
-  | "CASE" :: id :: "co" :: _mode :: term :: shape :: takes :: limits :: _ =>
+  | "CASE" :: id :: "co" :: _mode :: term :: shape :: takes :: limits :: rest =>
     match Co.parseCfg term shape takes limits with
-    | some cfg => loop modeArg h { id := id, co := some cfg }
+    | some cfg =>
+      let cv := match rest with
+        | [items, "v"] => items.toNat?
+        | _ => none
+      loop modeArg h { id := id, co := some cfg, coVec := cv }
     | none => loop modeArg h { id := id, bad := some "co-header" }
   | "CASE" :: id :: fam :: mode :: keyed :: n :: _ =>
     match parseFam fam, parseMode mode, n.toNat? with
